@@ -248,6 +248,58 @@ func engineC49(c *vctx) error {
 		emit(kind, strings.ContainsAny(s, "\"'\\ "), len(s), "ISplit "+coqStr(s), obs, fmt.Sprintf("SplitShellStrings(%q)", s))
 	}
 
+	// Set called repeatedly on ONE variable (what pflag does for a repeated flag / a non-zero default)
+	d4 := func(d data.Duration) string {
+		return fmt.Sprintf("(%s, %s, %s, %s)", c49Z(int64(d.Years)), c49Z(int64(d.Months)), c49Z(int64(d.Days)), c49Z(int64(d.Hours)))
+	}
+	doSetSeq := func(init data.Duration, strs []string) {
+		items := make([]string, len(strs))
+		for i, s := range strs {
+			items[i] = coqStr(s)
+		}
+		nok := 0
+		obs := c49Guard(func() string {
+			d := init
+			steps := make([]string, len(strs))
+			for i, s := range strs {
+				err := d.Set(s)
+				if err == nil {
+					nok++
+				}
+				steps[i] = coqTuple(coqBool(err == nil), d4(d))
+			}
+			return "(OSeqD " + coqList(steps) + ")"
+		})
+		c.Hist(fmt.Sprintf("setseq-ok=%d/%d", nok, len(strs)))
+		emit("dur-set-seq", len(strs) >= 2 || !init.Zero(), len(strs), fmt.Sprintf("ISetSeq %s %s", d4(init), coqList(items)), obs, fmt.Sprintf("Duration%+v.Set x %q", init, strs))
+	}
+	doCountSeq := func(init int, strs []string) {
+		items := make([]string, len(strs))
+		for i, s := range strs {
+			items[i] = coqStr(s)
+		}
+		obs := c49Guard(func() string {
+			pc := ForgetPolicyCount(init)
+			steps := make([]string, len(strs))
+			for i, s := range strs {
+				err := pc.Set(s)
+				steps[i] = coqTuple(coqBool(err == nil), c49Z(int64(pc)))
+			}
+			return "(OSeqC " + coqList(steps) + ")"
+		})
+		emit("count-set-seq", len(strs) >= 2 || init != 0, len(strs), fmt.Sprintf("ICountSeq %s %s", c49Z(int64(init)), coqList(items)), obs, fmt.Sprintf("ForgetPolicyCount(%d).Set x %q", init, strs))
+	}
+	for _, q := range [][]string{{"1y6m", "2d"}, {"2d", "1y6m"}, {"1y", "1y"}, {"1y2m3d4h", "5h"}, {"1y2m3d4h", ""}, {"1y", " "}, {"3d5x"}, {"1y", "3d5x"}, {"3d5x", "1y"}, {"3d5x", "3d5x"}, {"1y", "2m", "3d"}, {"1y", "x", "3d"},
+		{"x", "1y", "y"}, {"1y2", "4h"}, {"7d", "99999999999999999999y"}, {"7d", "1d99999999999999999999h"}, {"-1y", "-2m"}, {"1h", "0h"}, {"1y1m1d1h", "0y"}, {"5d", "5d-"}, {"1y", "1"}, {"", "1y"}, {"1y", "1y2m", "3"}} {
+		doSetSeq(data.Duration{}, q)
+		doSetSeq(data.Duration{Years: 9, Months: 8, Days: 7, Hours: 6}, q)
+	}
+	for _, q := range [][]string{{"1", "2"}, {"2", "x"}, {"x", "2"}, {"unlimited", "3"}, {"3", "unlimited"}, {"3", "-1"}, {"-1", "3"}, {"5", ""}, {"5", "99999999999999999999"}, {"7", "0x1", "8"}, {"1", "2", "3"}} {
+		doCountSeq(0, q)
+		doCountSeq(42, q)
+		doCountSeq(-1, q)
+	}
+
 	// ---- corpus: boundaries and regressions
 	bigs := []string{
 		"0", "00", "7", "-0", "+0", "-", "+", "", "1_000", "0x10", "1e3", " 1", "1 ", "--1", "+-1", "-+1", "१",
@@ -439,6 +491,18 @@ func engineC49(c *vctx) error {
 			doOpts(in)
 		}
 		doSplit(gen(splitAlpha, 1+rng.intn(8)))
+		if i%3 == 0 {
+			k := 2 + rng.intn(2)
+			q := make([]string, k)
+			for j := range q {
+				q[j] = mutate(validDur(), durAlpha)
+			}
+			init := data.Duration{}
+			if rng.bool() {
+				init = data.Duration{Years: rng.intn(3), Months: rng.intn(13), Days: rng.intn(40), Hours: rng.intn(30)}
+			}
+			doSetSeq(init, q)
+		}
 	}
 	if c.thorough() {
 		// exhaustive short strings
